@@ -186,6 +186,26 @@ Definition check_envoy (fx : fixes) (c : case) : verdict :=
      v_guards := guards [(1%Z, g_F1 c); (2%Z, g_F2 c && negb (fx2 fx)); (3%Z, g_F3_envoy c && negb (fx3 fx));
                          (4%Z, g_F4 c); (5%Z, g_F5 c && negb (fx5 fx))] |}.
 
+(** * requests delivered through X-Forwarded-Uri (the proxy's own request goes to /zz-own) *)
+
+Definition own_path : string := "/zz-own".
+
+Definition corr1_xfu (fx : fixes) (c : case) (raw : string) (o : outcome) (uri : string) : bool :=
+  let m := serve_xfu fx (c_rules c) (c_dflt c) (c_host c) own_path raw (c_query c) in
+  outcome_eqb m o &&
+  match m with
+  | Accepted _ _ _ (Some u) => String.eqb (wire_uri u) uri
+  | _ => true
+  end.
+
+(** C08-F6: an X-Forwarded-Uri that does not parse *)
+Definition g_F6 (c : case) : bool := negb (wellformed (c_raw c)) || negb (wellformed (c_raw2 c)).
+
+Definition check_xfu (fx : fixes) (c : case) : verdict :=
+  {| v_corr := corr1_xfu fx c (c_raw c) (o_a c) (o_auri c) && corr1_xfu fx c (c_raw2 c) (o_b c) (o_buri c) && o_stable c;
+     v_prop := prop_envoy c;
+     v_guards := guards [(1%Z, g_F1 c); (4%Z, g_F4 c); (6%Z, g_F6 c && negb (fx6 fx))] |}.
+
 (** * units: rule_impl.go unescape *)
 
 Record ucase := { uc_v : string; uo_off : string; uo_nodecode : string; uo_on : string }.
